@@ -213,3 +213,78 @@ pub fn fuzz_entry(target: &str, data: &[u8]) {
         }
     }
 }
+
+/// Deterministic seed inputs for a target: structure bytes + a *valid* payload for that structure
+/// (valid encodings / frames), so campaigns start behind input validation.
+pub fn seed_inputs(target: &str, count: usize) -> Vec<Vec<u8>> {
+    use crate::gen::{arb_value, ValCfg};
+    use crate::refcodec::ref_encode;
+    use crate::runner::sample_once;
+    let mut out = vec![];
+    let mut x: u64 = 0x9E37_79B9_7F4A_7C15 ^ (target.len() as u64) << 32;
+    let mut next = move || {
+        x ^= x << 13;
+        x ^= x >> 7;
+        x ^= x << 17;
+        x
+    };
+    for k in 0..count {
+        let head_len = match target {
+            "decode_diff" | "cobs_decode" => 24,
+            "accumulator" => 12,
+            "crc_decode" => 20,
+            "dyn_decode" | "dyn_encode" => 32,
+            _ => 8,
+        };
+        let head: Vec<u8> = (0..head_len).map(|_| (next() >> 24) as u8).collect();
+        let vcfg = ValCfg { max_len: 12, max_seq: 3 };
+        let payload: Vec<u8> = match target {
+            "decode_diff" => {
+                let shape = gen_shape(&mut Src::new(&head, false), 0);
+                let v = sample_once(&arb_value(&shape, vcfg), k as u64, "seed");
+                ref_encode(&shape, &v).map(|e| e.bytes).unwrap_or_default()
+            }
+            "cobs_decode" => {
+                let mut s = Src::new(&head, false);
+                let shapes = props::c07::target_shapes();
+                let shape = if s.byte() % 2 == 0 { shapes[s.below(shapes.len())].clone() } else { gen_shape(&mut s, 1) };
+                let v = sample_once(&arb_value(&shape, vcfg), k as u64, "seed");
+                crate::refcobs::frame(&ref_encode(&shape, &v).map(|e| e.bytes).unwrap_or_default())
+            }
+            "accumulator" => {
+                let mut s = Src::new(&head, false);
+                let _ = s.below(props::accum::CAPS.len());
+                let shapes = props::accum::target_shapes();
+                let shape = shapes[s.below(shapes.len())].clone();
+                let mut stream = vec![];
+                for j in 0..3 {
+                    let v = sample_once(&arb_value(&shape, ValCfg { max_len: 4, max_seq: 2 }), (k * 3 + j) as u64, "seed");
+                    stream.extend(crate::refcobs::frame(&ref_encode(&shape, &v).map(|e| e.bytes).unwrap_or_default()));
+                }
+                stream
+            }
+            "crc_decode" => {
+                let mut s = Src::new(&head, false);
+                let ai = s.below(props::c10::apis().len());
+                let shape = gen_shape(&mut s, 1);
+                let v = sample_once(&arb_value(&shape, vcfg), k as u64, "seed");
+                props::c10::frame_of(&props::c10::apis()[ai], &ref_encode(&shape, &v).map(|e| e.bytes).unwrap_or_default())
+            }
+            "dyn_decode" => {
+                let tree = gen_tree(&mut Src::new(&head, false), 0);
+                match crate::dynmap::tree_to_shape(&tree) {
+                    Some(shape) => {
+                        let v = sample_once(&arb_value(&shape, vcfg), k as u64, "seed");
+                        ref_encode(&shape, &v).map(|e| e.bytes).unwrap_or_default()
+                    }
+                    None => vec![0, 1, 2],
+                }
+            }
+            _ => (0..24).map(|_| (next() >> 24) as u8).collect(),
+        };
+        let mut input = head;
+        input.extend(payload);
+        out.push(input);
+    }
+    out
+}
